@@ -537,6 +537,10 @@ class JGen(sg.Gen):
         if not tracked:
             return
         sid = rng.choice(tracked)
+        if rng.random() < 0.12:
+            # the emission switch (storage-event-control): joins must honour it too
+            self.hist.append((sg.SEMIT, [sid, rng.choice([0, 0, 1])]))
+            return
         if sid not in self.readers or rng.random() < 0.15:
             self.hist.append((sg.RREG, [sid]))
             self.readers[sid] = self.readers.get(sid, 0) + 1
